@@ -100,11 +100,7 @@ fn c12_onehop_expiration_agrees_with_standard() {
     let v = OneHopPathView(b);
     let mut s = [0u8; 4 + SZ];
     s[2] = 0x20; // Seg0Len = 2 (bits 14..20)
-    let mut i = 0;
-    while i < SZ {
-        s[4 + i] = b[i];
-        i += 1;
-    }
+    s[4..].copy_from_slice(&b);
     let Ok((sv, _)) = StandardPathView::try_from_slice(&s) else {
         assert!(false, "C12.agree-exp: the one-segment standard form is accepted");
         return;
